@@ -16,13 +16,19 @@ fn sequential(ctx: &mut Ctx) {
     for len in [100usize, 240, 250, 255, 256, 300] {
         parts.push("n".repeat(len));
     }
+    // name parts with a directory component (the function only builds a path; nothing is created)
+    for p in ["group/item", "worker/1", "a/b/c.bin"] {
+        parts.push(p.to_string());
+    }
     for name in parts.iter().map(|s| s.as_str()) {
         let case = || json!({"Sequential": name});
         ctx.announce(case);
         let got = guard(|| {
             let paths: Vec<String> = (0..50).map(|_| temp_file_name(name).to_string_lossy().to_string()).collect();
             let distinct: HashSet<&String> = paths.iter().collect();
-            let contains = paths.iter().all(|p| std::path::Path::new(p).file_name().map(|f| f.to_string_lossy().contains(name)).unwrap_or(false));
+            // "contains the caller's name part": in the file name, or - for a name part with a directory
+            // component - in the path below the temporary directory.
+            let contains = paths.iter().all(|p| if name.contains('/') { p.contains(name) } else { std::path::Path::new(p).file_name().map(|f| f.to_string_lossy().contains(name)).unwrap_or(false) });
             (distinct.len() == paths.len(), contains)
         });
         ctx.expect(|| "temp_file_name[sequential](distinct, contains name part)".to_string(), got, &(true, true), case);
